@@ -131,7 +131,9 @@ func (p *peer) received() (body []byte, ct, auth string) {
 var resultCodes = []backend.ResultCode{backend.Success, backend.MICFailed, backend.JoinReqFailed, backend.NoRoamingAgreement, backend.DevRoamingDisallowed,
 	backend.RoamingActDisallowed, backend.ActivationDisallowed, backend.UnknownDevEUI, backend.UnknownDevAddr, backend.UnknownSender, backend.UnknownReceiver,
 	backend.Deferred, backend.XmitFailed, backend.InvalidFPort, backend.InvalidProtocolVersion, backend.StaleDeviceProfile, backend.MalformedRequest,
-	backend.FrameSizeError, backend.Other}
+	backend.FrameSizeError, backend.Other,
+	// the spellings of the Backend Interfaces specification where the package constants differ
+	"UnknownReceiver", "RoamingActDisallowed"}
 
 // clientMethod: one request method of the client with its request / answer types.
 type clientMethod struct {
